@@ -207,19 +207,23 @@ def suffix_table(F, which):
 
 
 def ident_continuation(F, which):
+    """Classes of characters that continue an identifier, as maximal runs of code points: the classifier is a pure function
+    of one character, so its definition is folded over the code points 0..0x3FF (rules/bytefn.py; ASCII, Latin-1, Latin
+    Extended, Greek -- enough to see a Unicode predicate where an ASCII one is meant) whatever form it is written in."""
+    from . import bytefn
     fn = "alpha::lexer::is_identifier_continuation" if which == "alpha" else "delta::lexer::is_identifier_continuation"
     b = F.body(fn)
-    ms = hirq.find_match(b, all_matches=True)
-    if not ms:
-        ms = [m for m in hirq.matches(b["hir"], msrc=None)]
-    if not ms:
-        raise AnchorMissing("no match in %s" % fn)
+    dom = range(0x400) if which == "alpha" else range(256)
+    t = bytefn.table(b, dom)
+    acc = [x for x in dom if t[x] is True]
     classes = set()
-    for a in ms[0]["arms"]:
-        tv = [n["v"] for n in hirq.lits(a["body"], "bool")]
-        if tv == [True]:
-            for c in pat_chars(a["pat"]):
-                classes.add(c)
+    i = 0
+    while i < len(acc):
+        j = i
+        while j + 1 < len(acc) and acc[j + 1] == acc[j] + 1:
+            j += 1
+        classes.add((acc[i], acc[j]) if j > i else acc[i])
+        i = j + 1
     return classes
 
 
